@@ -177,7 +177,7 @@ def psi {ω : Type} (U : List Site) (B : Nat) (P : Prog ω) (K dmax : Nat) (st :
 
 theorem innerCost_le {ω : Type} (U : List Site) (B : Nat) (P : Prog ω) (K dmax : Nat)
     (hK : ∀ m, rank P.D (P.succ m) (P.V m) (P.lim m) (P.init m).w (P.init m).cnt ≤ K)
-    (hd : ∀ m s, (P.succ m s).length ≤ dmax) (hasBody : Int → Bool)
+    (hd : ∀ m s, (P.succ m s).length ≤ dmax) (hasBody : Glob → Frame (VLoc ω) → Nat → Bool)
     (stack : List (Frame (VLoc ω))) (G : Glob) (tick : Nat) :
     innerCost (driver (visitRunner U B P) hasBody P.init stack G tick).1 ≤ psi U B P K dmax stack G := by
   fun_induction driver (visitRunner U B P) hasBody P.init stack G tick with
